@@ -1,7 +1,7 @@
 (* C39 -- the model: hy_eval_user as generated from hy/compiler.py
    (Gen/StateEvalTerm.v), run by the fragment semantics with hy_eval and every
    other callee opaque. *)
-From HyV Require Export State.EvalRestoreSem Gen.StateEvalTerm.
+From HyV Require Export State.EvalRestoreSymex Gen.StateEvalTerm.
 
 (* hy_eval stays opaque: what evaluation does is the oracle's business *)
 Definition user_prog : prog :=
@@ -9,15 +9,25 @@ Definition user_prog : prog :=
 
 Definition hy : val := VStr "hy".
 
-(* a call hy.eval(model, globals, locals, module, macros) in state s; every argument explicit
+(* a call hy.eval(model, globals, locals, module, macros); every argument explicit
    ([VNone] = not given: the defaults are checked to be None in EvalRestoreProofs.defaults_are_none) *)
 Definition user_kw (m vg vl vm vmac : val) : list (string * val) :=
   [("model", m); ("globals", vg); ("locals", vl); ("module", vm); ("macros", vmac)].
-Definition call_user (Orc : oracle) (fuel : nat) (m vg vl vm vmac : val) (s : st) : eres :=
-  call_fun user_prog Orc fuel None "hy_eval_user" hy_eval_user_def [] (user_kw m vg vl vm vmac) s.
 
 (* enough for any single call of the generated body (no loops, calls only to opaque callees) *)
 Definition user_fuel : nat := 60.
+
+(* the call as a computation with a result (used for the correspondence with the real function) *)
+Definition call_user (Orc : oracle) (fuel : nat) (m vg vl vm vmac : val) (s : st) : eres :=
+  run_fun user_prog Orc fuel None "hy_eval_user" hy_eval_user_def [] (user_kw m vg vl vm vmac) s.
+
+(* the same call with a postcondition as the final continuation: "the call ends -- neither fuel
+   exhaustion nor anything outside the fragment -- and its result satisfies Q" *)
+Definition wp_user (O : pure_oracle) (fuel : nat) (m vg vl vm vmac : val) (s : st) (Q : eres -> Prop) : Prop :=
+  call_fun user_prog (nr O) Prop False (fun _ => False)
+    (exec_block user_prog (nr O) Prop False (fun _ => False) fuel) fuel
+    None "hy_eval_user" hy_eval_user_def [] (user_kw m vg vl vm vmac) s
+    (fun v s' => Q (EOk v s')) (fun x s' => Q (EExc x s')).
 
 (* the hy entry of dictionary d: None = d is not a dictionary; Some None = no entry *)
 Definition hy_entry (h : heap) (d : N) : option (option val) :=
@@ -31,30 +41,18 @@ Definition hy_preserved (h h' : heap) : Prop :=
   forall d kvs, hget h d = Some (ODict kvs) -> hy_entry h' d = Some (dget hy kvs).
 
 (* What is assumed of the opaque callees: they return or raise without calling
-   hy_eval_user again; dictionaries stay dictionaries; and the only hy entry
-   they may touch is the one of the dictionary handed to hy_eval as `locals`
-   (that is where the implicit `import hy` and the evaluated code's own
-   bindings go; a program that deliberately rebinds hy in some other dictionary
-   is outside the property).  Nothing else: they may rebind, delete or create that
-   entry, change any other key of any dictionary, allocate, return or raise anything. *)
-Definition frame_ok (Orc : oracle) : Prop :=
-  forall n g args kw h, exists h' r, Orc n g args kw h = BDone h' r /\
-    forall d kvs, hget h d = Some (ODict kvs) ->
-      exists kvs', hget h' d = Some (ODict kvs') /\
-        ((g = "hy_eval" /\ aget "locals" kw = Some (VRef d)) \/ dget hy kvs' = dget hy kvs).
+   hy_eval_user again (they are given as functions returning the callee's heap and
+   outcome); dictionaries stay dictionaries; and the only hy entry they may touch is
+   the one of the dictionary handed to hy_eval as `locals` (that is where the
+   implicit `import hy` and the evaluated code's own bindings go; a program that
+   deliberately rebinds hy in some other dictionary is outside the property).
+   Nothing else: they may rebind, delete or create that entry, change any other key
+   of any dictionary, allocate, return or raise anything. *)
+Definition frame_ok (O : pure_oracle) : Prop :=
+  forall n g args kw h d kvs, hget h d = Some (ODict kvs) ->
+    exists kvs', hget (fst (O n g args kw h)) d = Some (ODict kvs') /\
+      ((g = "hy_eval" /\ aget "locals" kw = Some (VRef d)) \/ dget hy kvs' = dget hy kvs).
 
 (* a namespace argument: absent, or a dictionary of the heap *)
 Definition ns_arg (h : heap) (v : val) : Prop :=
   v = VNone \/ exists d kvs, v = VRef d /\ hget h d = Some (ODict kvs).
-
-(* sequences of calls, each with its own arguments *)
-Record ucall := { u_model : val; u_globals : val; u_locals : val; u_module : val; u_macros : val }.
-Fixpoint run_calls (Orc : oracle) (cs : list ucall) (s : st) : option st :=
-  match cs with
-  | [] => Some s
-  | c :: r =>
-      match call_user Orc user_fuel (u_model c) (u_globals c) (u_locals c) (u_module c) (u_macros c) s with
-      | EOk _ s1 | EExc _ s1 => run_calls Orc r s1
-      | _ => None
-      end
-  end.
